@@ -33,6 +33,7 @@ pub struct Cfg {
     pub via: String, // logger | flw
     pub subdir: String,
     pub maxlvl: String, // max level for the file writer (flw) - "" = default
+    pub addw: bool,     // register an additional writer "A"
 }
 
 pub const STD_FMT: &str = "r%Y-%m-%d_%H-%M-%S";
@@ -94,6 +95,7 @@ impl Cfg {
             via: gs(v, "via", "logger"),
             subdir: gs(v, "subdir", "logs"),
             maxlvl: gs(v, "maxlvl", ""),
+            addw: gb(v, "addw", false),
         }
     }
     pub fn clean(&self) -> bool {
@@ -401,6 +403,27 @@ pub fn observe(dir: &Path, cfg: &Cfg, link: Option<&PathBuf>, raw: bool) -> Valu
             }));
         }
     }
+    // ids of whole records found in ANY regular file of the directory, whatever its name (C10)
+    let mut anyids: Vec<u64> = Vec::new();
+    if let Ok(rd) = std::fs::read_dir(dir) {
+        for e in rd.flatten() {
+            let p = e.path();
+            if std::fs::symlink_metadata(&p).map(|m| m.is_file()).unwrap_or(false) {
+                let z = p.extension().is_some_and(|x| x == "gz");
+                let (bytes, _) = read_maybe_gz(&p, z);
+                if bytes.len() < 4_000_000 {
+                    for line in bytes.split(|b| *b == b'\n') {
+                        let line = line.strip_suffix(b"\r").unwrap_or(line);
+                        if line.len() >= 8 && line[..7].iter().all(|b| b.is_ascii_digit()) && line[7] == b'|' {
+                            anyids.push(std::str::from_utf8(&line[..7]).unwrap().parse().unwrap());
+                        }
+                    }
+                }
+            }
+        }
+    }
+    anyids.sort_unstable();
+    anyids.dedup();
     let (lk, lk_ok) = match link {
         Some(l) => match std::fs::read_link(l) {
             Ok(t) => (
@@ -417,7 +440,7 @@ pub fn observe(dir: &Path, cfg: &Cfg, link: Option<&PathBuf>, raw: bool) -> Valu
         },
         None => (String::new(), false),
     };
-    json!({"files": files, "foreign": foreign, "link": lk, "link_ok": lk_ok})
+    json!({"files": files, "foreign": foreign, "link": lk, "link_ok": lk_ok, "anyids": anyids})
 }
 
 pub fn hex(b: &[u8]) -> String {
